@@ -8,7 +8,8 @@ NEVAL = 8   # Get, First, FirstFound, Has, Locate x3, Walk per representation (+
 
 
 def judge(ctx, cases):
-    recs, res = jpfam.judge_paths(ctx, cases, "c11", chunk=3000)
+    # shrinking only in the main run (cases = file); a replay / confirmation judges the witness as it is
+    recs, res = jpfam.judge_paths(ctx, cases, "c11", chunk=3000, shrink=isinstance(cases, str))
     ctx.cov["evaluations"] += res["n"] * NEVAL * 4
     ctx._hits = getattr(ctx, "_hits", set()) | set(res.get("hits", {}))
     return recs
